@@ -6,36 +6,36 @@ def P(quick_runs, quick_s, thorough_runs, thorough_s, **kw):
     return d
 
 PROFILES = {
-    'C01': P(6000, 60, 300000, 1500),
-    'C02': P(6000, 60, 300000, 1500),
-    'C05': P(6000, 60, 300000, 1500),
-    'C06': P(6000, 60, 300000, 1500),
+    'C01': P(6000, 60, 250000, 600),
+    'C02': P(6000, 60, 250000, 600),
+    'C05': P(6000, 60, 250000, 600),
+    'C06': P(6000, 60, 250000, 600),
 }
 PROFILES.update({
-    'C03': P(6000, 60, 300000, 1500),
-    'C04': P(6000, 60, 300000, 1500),
-    'C07': P(8000, 60, 300000, 1500, level='exploration'),
-    'C08': P(4000, 90, 200000, 1800),
-    'C09': P(5000, 60, 300000, 1500),
-    'C10': P(3000, 90, 150000, 1800),
+    'C03': P(6000, 60, 250000, 600),
+    'C04': P(6000, 60, 250000, 600),
+    'C07': P(8000, 60, 250000, 600, level='exploration'),
+    'C08': P(4000, 90, 200000, 600),
+    'C09': P(5000, 60, 250000, 600),
+    'C10': P(3000, 90, 150000, 600),
 })
 PROFILES.update({
-    'C11': P(8000, 60, 400000, 1500),
-    'C12': P(5000, 60, 300000, 1500),
-    'C18': P(5000, 60, 200000, 1500),
+    'C11': P(8000, 60, 300000, 600),
+    'C12': P(5000, 60, 250000, 600),
+    'C18': P(5000, 60, 200000, 600),
 })
 
 # site-triggered fault enumeration: base programs, cap on points per base program, wall budget
-_ENUM = dict(quick=dict(bases=32, max_points=60, budget_s=40), thorough=dict(bases=4000, max_points=400, budget_s=900))
+_ENUM = dict(quick=dict(bases=32, max_points=60, budget_s=40), thorough=dict(bases=4000, max_points=400, budget_s=600))
 for _p in ('C07', 'C10', 'C12'):
     PROFILES[_p]['enum'] = _ENUM
 
 import simcheck as _sc
 PROFILES.update({
-    'C13': P(6000, 60, 300000, 1500),
-    'C15': P(240, 120, 40000, 1800, custom=lambda prop, tier, seed: _sc.run_race_check(prop, tier, seed)),
+    'C13': P(6000, 60, 250000, 600),
+    'C15': P(240, 120, 40000, 1200, custom=lambda prop, tier, seed: _sc.run_race_check(prop, tier, seed)),
 })
 
 PROFILES.update({
-    'C16': dict(quick=dict(runs=60, budget_s=120, variants=4), thorough=dict(runs=3000, budget_s=1800, variants=40), custom=lambda prop, tier, seed: _sc.run_gen_check(prop, tier, seed)),
+    'C16': dict(quick=dict(runs=60, budget_s=120, variants=4), thorough=dict(runs=1500, budget_s=1200, variants=40), custom=lambda prop, tier, seed: _sc.run_gen_check(prop, tier, seed)),
 })
